@@ -120,6 +120,9 @@ class Built:
 
       self.test.add_test_diagnosers(tdiag)
     self.start = self.node(cfg['start']) if cfg.get('start') else None
+    if cfg.get('dut') and self.start is None:
+      dut = cfg['dut']
+      self.start = lambda: dut
 
   # plug classes are created per case (fresh class objects)
   def plug_class(self, idx):
@@ -144,6 +147,9 @@ class Built:
             log.add('plug_td_hang', idx)
             while True:
               time.sleep(0.005)
+          if fault == 'td_hang_unkillable':
+            log.add('plug_td_hang', idx)
+            threading.Event().wait()
 
       P.__name__ = 'Plug%d' % idx
       P.__qualname__ = 'Plug%d' % idx
